@@ -31,7 +31,7 @@ def main(tier):
     return run_check(
         "C06", tier, jobs(tier),
         bounds={"atoms": "all labelled graphs on n <= %d atoms (S-shape), n <= %d over {H, C, O, Br}; <= 1 mass and <= 1 radical label (symbolic values >= 1)" % ((4, 3) if t else (3, 2)),
-                "non-identity data (second rendering)": "file atom indices (any distinct positive integers), formal charge of every atom in [-15, 15] (explicit CHG=0 on the first atom only), bond type of every bond (any integer), atom-atom mapping number: all symbolic; plus one of: header/comment lines (80 chars, text containing V2000 / M  END / M  V30), one extra atom keyword (14), one extra bond keyword (4), a trailing COLLECTION/SGROUP/OBJ3D block, CRLF line ends, a coordinate from the boundary list, reversed property order",
+                "non-identity data (second rendering)": "file atom indices (any distinct positive integers), formal charge of every atom in [-15, 15] (explicit CHG=0 on the first atom only), bond type of every bond (1..10, the types the specification defines), atom-atom mapping number: all symbolic; plus one of: header/comment lines (80 chars, text containing V2000 / M  END / M  V30), one extra atom keyword (14), one extra bond keyword (4), a trailing COLLECTION/SGROUP/OBJ3D block, CRLF line ends, a coordinate from the boundary list, reversed property order",
                 "v2000": "coordinates, bond types (symbolic), bond stereo field, M  CHG charges (symbolic) or atom-block charge codes on every atom (incl. D atoms), header lines, CRLF, atom-block charge codes 0..7 superseded by M  CHG lines, one unrelated line (M  STY, M  ALS, A, V, G, S  SKP, M  SAL, M  RGP) at every position of the property block, content after M  END (SD data items, a following record with M  ISO/RAD/CHG lines)"},
         assumptions=["renderings by REF-V3000 / REF-V2000, independent of tucan", "z3 decides every branch on symbolic fields; per-path concrete replay"],
         stubs=["module attribute `int`/`float` of the two reader modules shadowed to map a placeholder back to its term"],
